@@ -12,12 +12,20 @@
 (*              none is logged obtained its domain from memory, which is legal if transparent -   *)
 (*              the silent step Recall; what decides is what was signed (Sign, Return).  A call   *)
 (*              the provider cannot attribute to a request (rid 0) is noted and changes nothing.  *)
-(*   Sign       logged by an account wrapper at every signer call: the request positions of the   *)
-(*              accounts it was handed (in the order handed), per position whether the data handed*)
-(*              for it is the message of THAT position (root / duty fields merkleised by the      *)
-(*              wrapper; for a plain AccountSigner: the finished signing root, built with the     *)
-(*              domain of the request's own type and epoch), and - where the domain is handed     *)
-(*              over separately - which domain value it is                                        *)
+(*   Sign       logged by an account wrapper when a signer call ARRIVES (rid: the request whose   *)
+(*              goroutine makes the call, from the context): per account handed, in the order     *)
+(*              handed, the request it belongs to (`owners`) and its position there (`idx`),      *)
+(*              whether the data handed for it is the message of THAT account's position (root /  *)
+(*              duty fields merkleised by the wrapper; for a plain AccountSigner: the finished    *)
+(*              signing root, built with the domain of the request's own type and epoch), and -   *)
+(*              where the domain is handed over separately - which domain value it is             *)
+(*   Signed     logged by the wrapper when the signer call RETURNS (the driver may have held it   *)
+(*              back meanwhile, as it holds the provider's replies): the same fields, read again  *)
+(*              from the arguments at that moment - a signer may look at what it was handed at    *)
+(*              any time during the call - these are what it signed                               *)
+(*   Stable     end of the history: is the reply the request returned still, byte for byte, what  *)
+(*              it was when it was returned                                                       *)
+(*   Crash, Hung  a request panicked / never returned: no action of the specification             *)
 (*   Return     ok?, and per position: does the signature verify (BLS, in Go) under the key the   *)
 (*              specification names for that position, against SigningRoot(hash_tree_root(        *)
 (*              container filled by the driver), chain's domain for DomainReq of THIS request);   *)
@@ -41,6 +49,7 @@ TraceReset ==
     /\ req' = [r \in Rids |-> NoCall]
     /\ domreqs' = [r \in Rids |-> <<>>]
     /\ dom' = [r \in Rids |-> NoDomain]
+    /\ insign' = [r \in Rids |-> NoSign]
     /\ signed' = [r \in Rids |-> EmptyFn]
     /\ result' = [r \in Rids |-> <<>>]
 
@@ -81,16 +90,42 @@ TraceRecall ==
     /\ Recall(Trace[l].rid)
     /\ l' = l
 
-\* a signer call: for every position handed over, the data is that position's message and the
-\* domain (where visible) is the domain of the request's own type and epoch
+\* a signer call arrives: everything handed over is the calling request's own - its accounts, and for each
+\* the message of that account's position - and the domain (where visible) is the domain of the request's
+\* own type and epoch
+LoggedItems(t) == [j \in 1..Len(t.idx) |-> Item(t.owners[j], t.idx[j])]
+
 TraceSign ==
     /\ IsEvent("Sign")
     /\ LET t == Trace[l] IN
          /\ t.rid \in Rids
          /\ Len(t.dataok) = Len(t.idx)
-         /\ \A j \in 1..Len(t.idx) : t.dataok[j]
+         /\ Len(t.owners) = Len(t.idx)
+         /\ \A j \in 1..Len(t.idx) : t.dataok[j] /\ t.owners[j] = t.rid          \* HandedOwn, as observed
          /\ t.hasdom => LoggedValue(t.dom) = dom[t.rid]
-         /\ IF t.err THEN SignerFails(t.rid) ELSE SignSome(t.rid, t.idx)
+         /\ IF t.err THEN SignerFails(t.rid) ELSE SignStartWith(t.rid, LoggedItems(t), t.idx)
+
+\* the signer call returns: what it signed is what it was handed when the call arrived
+TraceSigned ==
+    /\ IsEvent("Signed")
+    /\ LET t == Trace[l] IN
+         /\ t.rid \in Rids
+         /\ Len(t.dataok) = Len(t.idx)
+         /\ Len(t.owners) = Len(t.idx)
+         /\ \A j \in 1..Len(t.idx) : t.dataok[j]
+         /\ pc[t.rid] = "insign"
+         /\ LoggedItems(t) = insign[t.rid].items
+         /\ t.hasdom => LoggedValue(t.dom) = dom[t.rid]
+         /\ SignEnd(t.rid)
+
+\* the reply still is what was returned
+TraceStable ==
+    /\ IsEvent("Stable")
+    /\ LET t == Trace[l] IN
+         /\ t.rid \in Rids
+         /\ pc[t.rid] \in {"done", "error"}
+         /\ t.same
+    /\ UNCHANGED vars
 
 TraceReturn ==
     /\ IsEvent("Return")
@@ -106,9 +141,15 @@ TraceReturn ==
                         ELSE t.verifies[i] /\ ~t.zero[i]        \* verifies for (key i, message i, own domain)
              ELSE ReturnErr(r)
 
-TraceNext == TraceReset \/ TraceCall \/ TraceDomainReq \/ TraceDomainResp \/ TraceRecall \/ TraceSign \/ TraceReturn
+TraceNext == TraceReset \/ TraceCall \/ TraceDomainReq \/ TraceDomainResp \/ TraceRecall \/ TraceSign \/ TraceSigned
+                \/ TraceReturn \/ TraceStable
 
 TraceSpec == TraceInit /\ [][TraceNext]_tvars
+
+\* ReplyStable of Signer.tla, a new service instance (Reset) excepted
+TraceReplyStable ==
+    [][(l <= TraceLen /\ Trace[l].ev = "Reset") \/
+       \A r \in Rids : pc[r] \in {"done", "error"} => (pc'[r] = pc[r] /\ result'[r] = result[r])]_tvars
 
 HWM == UpdateHWM(l)
 TraceAccepted == TraceAcceptedUpTo
